@@ -630,6 +630,15 @@ impl Ctx {
                         let (fails, content) = decode::monitor(&st, &self.tables);
                         ev.insert("native".into(), json!({"fails": fails, "content": content}));
                     }
+                    // the raw bytes of a small image go with it: the TLA+ format module (AbyFormat) decodes
+                    // them itself and must arrive at the same raw interpretation as the decoder above
+                    if op.get("raw").and_then(|b| b.as_bool()).unwrap_or(false) && st.get("error").is_none() {
+                        if let Ok(f) = decode::read_files(&self.dir(&d), &nm) {
+                            if f.htx.len() + f.key.len() + f.val.len() <= 12000 {
+                                ev.insert("raw".into(), json!({"htx": f.htx, "key": f.key, "val": f.val}));
+                            }
+                        }
+                    }
                     ev.insert("st".into(), st);
                 }
                 ev.insert("outcome".into(), json!("ok"));
@@ -751,6 +760,8 @@ impl Ctx {
                     std::fs::write(&f, b).map_err(|e| format!("mutate write: {e}"))?;
                 } else if let Some(content) = op.get("content_hex").and_then(|s| s.as_str()) {
                     std::fs::write(&f, crate::tables::unhex(content)).map_err(|e| format!("mutate write: {e}"))?;
+                } else if op.get("remove").and_then(|b| b.as_bool()).unwrap_or(false) {
+                    let _ = std::fs::remove_file(&f);
                 } else if let Some(t) = op.get("truncate").and_then(|s| s.as_u64()) {
                     let mut b = std::fs::read(&f).map_err(|e| format!("mutate read: {e}"))?;
                     b.truncate(t as usize);
